@@ -16,5 +16,5 @@ CONSTANTS
   SavePoolOnKilledReplace = TRUE
   RefreshZeroesOffers = FALSE
 INVARIANTS TypeOK C24_Limits C09_Covered
-PROPERTIES C24_Once C09_Backed
+PROPERTIES C24_Once C24_Rereg C09_Backed
 CHECK_DEADLOCK FALSE
